@@ -456,4 +456,19 @@ section .text
 		db 0x%3, 0x%2
 %endmacro
 
+%ifdef ISAL_CRYPTO_VERIF
+; Verification hook (off by default): route the CPU feature queries of the
+; run-time dispatchers through two external routines so a test harness can
+; present a virtual CPU. Both take and return exactly the architectural
+; registers of the instruction they stand for and preserve everything else.
+extern isal_verif_cpuid
+extern isal_verif_xgetbv
+%macro cpuid 0
+	call	isal_verif_cpuid
+%endmacro
+%macro xgetbv 0
+	call	isal_verif_xgetbv
+%endmacro
+%endif ; ISAL_CRYPTO_VERIF
+
 %endif ; ifndef _REG_SIZES_ASM_
